@@ -26,6 +26,7 @@ META = {
 }
 
 FILES = ["c28_evalcommon_test.go", "c28_selectors_test.go"]
+W = int(os.environ.get("VERIF_TLC_WORKERS", "8"))   # TLC workers (shared machine: export 4 while developing)
 
 
 def corrupt(behs):
@@ -50,21 +51,26 @@ def run(ctx):
         ctx.states, ctx.transitions = saved["states"], saved["transitions"]
         return replay(ctx, saved["behs"])
     # (M)+(R) exhaustive: one series, every store / expression / time of the quick alphabet
-    mc = ctx.tlc("promql_eval", "Selectors", "MC_quick.cfg", workers=8, timeout=900)
+    mc = ctx.tlc("promql_eval", "Selectors", "MC_quick.cfg", workers=W, timeout=900)
     ctx.account(mc)
     behs += mc.emitted
     ctx.log("MC_quick: %d generated / %d distinct, %d cases" % (mc.generated, mc.distinct, len(mc.emitted)))
+    # (M)+(R) exhaustive: subquery depth (3 wrappers, step 1 so that inner windows sweep over every sample, subquery offset / @)
+    sub = ctx.tlc("promql_eval", "Selectors", "MC_sub.cfg", workers=W, timeout=900)
+    ctx.account(sub)
+    behs += sub.emitted
+    ctx.log("MC_sub: %d generated / %d distinct, %d cases" % (sub.generated, sub.distinct, len(sub.emitted)))
     # (M)+(R) exhaustive: two series (iterator / buffer reuse across series)
-    two = ctx.tlc("promql_eval", "Selectors", "MC_two.cfg", workers=8, timeout=900)
+    two = ctx.tlc("promql_eval", "Selectors", "MC_two.cfg", workers=W, timeout=900)
     ctx.account(two)
     behs += two.emitted
     ctx.log("MC_two: %d generated / %d distinct, %d cases" % (two.generated, two.distinct, len(two.emitted)))
     if not q:
-        big = ctx.tlc("promql_eval", "Selectors", "MC_big.cfg", workers=8, timeout=3000)
+        big = ctx.tlc("promql_eval", "Selectors", "MC_big.cfg", workers=W, timeout=3000)
         ctx.account(big)
         ctx.log("MC_big: %d generated / %d distinct" % (big.generated, big.distinct))
     # (R) seeded random walks over the big alphabet (2 series, 4 samples, 4 wrappers, NaN/Inf, negative times)
-    sim = ctx.tlc("promql_eval", "Selectors", "SIM.cfg", simulate=(200 if q else 12000), depth=20, workers=8,
+    sim = ctx.tlc("promql_eval", "Selectors", "SIM.cfg", simulate=(200 if q else 12000), depth=20, workers=W,
                   timeout=(60 if q else 900))
     ctx.account(sim)
     behs += sim.emitted
